@@ -47,7 +47,7 @@ def make_cfg(rng, kind, refrac_choice=None):
     rest = rng.choice([-70.0, -65.0, -60.0])
     thresh = rng.choice([-50.0, -52.0, -45.0])
     reset = rng.choice([-75.0, -65.0, -68.0])
-    rmul = refrac_choice if refrac_choice is not None else rng.choice([0.0, 0.5, 1.0, 2.0, 2.5, 3.0, 5.0])
+    rmul = refrac_choice if refrac_choice is not None else rng.choice([0.0, 0.5, 1.0, 2.0, 2.5, 3.0, 5.0, 0.25, 0.125, 0.75])
     cfg = dict(kind=kind, dt=dt, rest=rest, reset=reset, thresh=thresh, refracT=rmul * dt,
                tau=rng.choice([5.0, 10.0, 20.0]), R=rng.choice([1.0, 0.5, 2.0]),
                a=0.0, b=0.0, slope=0.0, icpt=0.0, tcA=[], vcA=[], incA=[])
@@ -183,7 +183,7 @@ def explore(ctx) -> Exploration:
     lines, plan = [], []
     for kind in KINDS:
         for ci in range(ncase):
-            cfg = make_cfg(rng, kind, refrac_choice=[0.0, 0.5, 1.0, 2.5][ci] if ci < 4 else None)
+            cfg = make_cfg(rng, kind, refrac_choice=[0.0, 0.5, 1.0, 2.5, 0.25, 0.125][ci] if ci < 6 else None)
             lock = rng.random() < 0.7
             adapt = kind in ADAPTIVE and rng.random() < 0.7
             shape = rng.choice([(3,), (2, 2), (1,), (2, 3)])
@@ -191,13 +191,37 @@ def explore(ctx) -> Exploration:
             n = batch * math.prod(shape)
             inputs = gen_inputs(rng, cfg, T, n)
             clear_at = rng.randrange(T) if rng.random() < 0.3 else None
-            neuron = build(cfg, shape, batch)
+            # (i) the step time assigned AFTER construction (`neuron.dt = …`): everything derived from it must follow;
+            #     the model is simply begun with the final configuration
+            via_dt_setter = ci % 3 == 1
+            if via_dt_setter:
+                other = dict(cfg, dt=rng.choice([d for d in (0.25, 0.5, 1.0, 2.0) if d != cfg["dt"]]))
+                neuron = build(other, shape, batch)
+                neuron.dt = cfg["dt"]
+            else:
+                neuron = build(cfg, shape, batch)
             neuron.train(adapt)
+            # (ii) the adaptation state replaced from outside between two steps (checkpoint restore / in-place edit)
+            poke_at, poke_vals = None, None
+            if kind in ADAPTIVE and batch == 1 and rng.random() < 0.5:
+                poke_at = rng.randrange(1, T)
+                k = len(cfg["tcA"])
+                poke_vals = [[rng.choice([0.0, 4.0, 8.0, 20.0, -2.0]) for _ in range(k)] for _ in range(math.prod(shape))]
             traj = []   # per step: spikes, v, r, adapt, spike attr
             with torch.no_grad():
                 for t in range(T):
                     if clear_at == t:
                         neuron.clear()
+                    if poke_at == t:
+                        name = "threshold_adaptation" if kind in ("ALIF", "GLIF2") else "current_adaptation"
+                        new = torch.tensor(poke_vals, dtype=torch.float64).reshape(getattr(neuron, name).shape)
+                        if t % 2 == 0:
+                            sd = neuron.state_dict()
+                            key = next(k_ for k_ in sd if "adaptation" in k_ and sd[k_].shape == new.shape)
+                            sd[key] = new
+                            neuron.load_state_dict(sd)
+                        else:
+                            getattr(neuron, name).copy_(new)
                     x = torch.tensor(inputs[t]).reshape(batch, *shape)
                     if kind in ADAPTIVE:
                         s = neuron(x, adapt=adapt, refrac_lock=lock)
@@ -214,6 +238,8 @@ def explore(ctx) -> Exploration:
             ex.count("refrac_t/dt", str(cfg["refracT"] / cfg["dt"]))
             ex.count("lock", str(lock))
             ex.count("adapt", str(adapt))
+            ex.count("configured", "dt-setter" if via_dt_setter else "constructor")
+            ex.count("adaptation-poked", str(poke_at is not None))
             # model lines, per element
             for e in range(n):
                 first = len(lines)
@@ -221,15 +247,19 @@ def explore(ctx) -> Exploration:
                 for t in range(T):
                     if clear_at == t:
                         lines.append("clear T")
+                    if poke_at == t:
+                        lines.append("setadapt " + ",".join(hx(x) for x in poke_vals[e % math.prod(shape)]))
                     lines.append(f"step {'T' if lock else 'F'} {'T' if adapt else 'F'} {hx(inputs[t][e])}")
-                plan.append((cfg, lock, adapt, shape, batch, e, inputs, clear_at, traj, first, len(lines)))
+                plan.append((cfg, lock, adapt, shape, batch, e, inputs, clear_at, traj, first, len(lines), poke_at, poke_vals, via_dt_setter))
     resp = ctx.run_driver(DRIVER, lines)
     nspk = 0
-    for cfg, lock, adapt, shape, batch, e, inputs, clear_at, traj, a, b in plan:
+    for cfg, lock, adapt, shape, batch, e, inputs, clear_at, traj, a, b, poke_at, poke_vals, via_dt_setter in plan:
         out = [r for l, r in zip(lines[a:b], resp[a:b]) if l.startswith("step")]
         kind = cfg["kind"]
         case = {"class": kind, "cfg": cfg, "lock": lock, "adapt": adapt, "shape": list(shape), "batch": batch,
-                "element": e, "inputs": [row[e] for row in inputs], "clear_at": clear_at}
+                "element": e, "inputs": [row[e] for row in inputs], "clear_at": clear_at,
+                "configured_through_dt_setter": via_dt_setter, "adaptation_replaced_at": poke_at,
+                "adaptation_replaced_by": (poke_vals[e % math.prod(shape)] if poke_vals else None)}
         pidx = e % math.prod(shape)      # adaptation index (shared over batch)
         # ---- code vs code-shaped model
         bad = None
@@ -252,7 +282,7 @@ def explore(ctx) -> Exploration:
         if bad and len([f for f in ex.findings if f.kind == "model"]) < 5:
             ex.findings.append(Finding("model", f"C03:model:{kind}", f"step {bad[0]}: code {bad[1]} vs model {bad[2]}", dict(case, step=bad[0])))
         # ---- code vs contract (specification)
-        viol = contract(cfg, lock, adapt, e, pidx, inputs, clear_at, traj, batch)
+        viol = contract(cfg, lock, adapt, e, pidx, inputs, clear_at, traj, batch, poke_at, poke_vals[pidx] if poke_vals else None)
         for key, what, t in viol:
             if len([f for f in ex.findings if f.key == key]) < 3:
                 ex.findings.append(Finding("spec", key, what, dict(case, step=t)))
@@ -267,7 +297,7 @@ def explore(ctx) -> Exploration:
     return ex
 
 
-def contract(c, lock, adapt, e, pidx, inputs, clear_at, traj, batch):
+def contract(c, lock, adapt, e, pidx, inputs, clear_at, traj, batch, poke_at=None, poke=None):
     """independent check of the property's clauses on one element's real trajectory"""
     out = []
     kind, dt, rt = c["kind"], c["dt"], c["refracT"]
@@ -279,6 +309,8 @@ def contract(c, lock, adapt, e, pidx, inputs, clear_at, traj, batch):
         if clear_at == t:
             v_prev, r_prev = c["rest"], 0.0
             last_spike = None
+        if poke_at == t and poke is not None:
+            ad_prev = list(poke)          # the adaptation state was replaced from outside before this step
         sp, vv, rr = bool(s[e]), float(v[e]), float(r[e])
         I = inputs[t][e]
         if rr < 0:
@@ -330,20 +362,32 @@ def replay(ctx, data) -> int:
         print("no failing input recorded:", data.get("broken"))
         return 1
     cfg, lock, adapt = case["cfg"], case["lock"], case["adapt"]
-    neuron = build(cfg, (1,), 1)
+    if case.get("configured_through_dt_setter"):
+        neuron = build(dict(cfg, dt=(0.5 if cfg["dt"] != 0.5 else 1.0)), (1,), 1)
+        neuron.dt = cfg["dt"]
+    else:
+        neuron = build(cfg, (1,), 1)
     neuron.train(adapt)
+    poke_at, poke = case.get("adaptation_replaced_at"), case.get("adaptation_replaced_by")
     traj = []
     with torch.no_grad():
         for t, I in enumerate(case["inputs"]):
             if case.get("clear_at") == t:
                 neuron.clear()
+            if poke_at == t and poke is not None:
+                name = "threshold_adaptation" if cfg["kind"] in ("ALIF", "GLIF2") else "current_adaptation"
+                sd = neuron.state_dict()
+                new = torch.tensor(poke, dtype=torch.float64).reshape(getattr(neuron, name).shape)
+                key = next(k_ for k_ in sd if "adaptation" in k_ and sd[k_].shape == new.shape)
+                sd[key] = new
+                neuron.load_state_dict(sd)
             x = torch.tensor([[I]])
             s = neuron(x, adapt=adapt, refrac_lock=lock) if cfg["kind"] in ADAPTIVE else neuron(x, refrac_lock=lock)
             ad = neuron.threshold_adaptation.clone() if cfg["kind"] in ("ALIF", "GLIF2") else (
                 neuron.current_adaptation.clone() if cfg["kind"] in ("Izhikevich", "AdEx") else None)
             traj.append((s.reshape(-1), neuron.voltage.clone().reshape(-1), neuron.refrac.clone().reshape(-1), ad, neuron.spike.clone().reshape(-1)))
             print(t, "I", I, "spike", bool(s.reshape(-1)[0]), "v", float(neuron.voltage.reshape(-1)[0]), "r", float(neuron.refrac.reshape(-1)[0]), "attr", bool(neuron.spike.reshape(-1)[0]))
-    v = contract(cfg, lock, adapt, 0, 0, [[i] for i in case["inputs"]], case.get("clear_at"), traj, 1)
+    v = contract(cfg, lock, adapt, 0, 0, [[i] for i in case["inputs"]], case.get("clear_at"), traj, 1, poke_at, poke)
     for x in v:
         print("CONTRACT VIOLATION", x)
     return 1 if v else 0
